@@ -76,6 +76,16 @@ def linearity_defects(fn, M, ishape, tol, dtype=np.complex128, pairs=True):
             probe("e%d+e%d" % (j, (j + 1) % n), e)
     probe("ones", np.ones(n, complex))
     probe("dense", (1 + 2j) * dense_vec(n))
+    # structured inputs: shortcuts that are exact for generic data and wrong for special data (entries that sum to zero,
+    # alternate in sign, are purely real / purely imaginary, vanish except at the ends, are exact powers of two)
+    if n > 1:
+        k = np.arange(n)
+        probe("alternating", ((-1.0) ** k).astype(complex))
+        probe("zero-mean ramp", (k - (n - 1) / 2.0).astype(complex))
+        probe("e0-e_last", (np.where(k == 0, 1.0, 0.0) - np.where(k == n - 1, 1.0, 0.0)).astype(complex))
+        probe("i*ones", 1j * np.ones(n, complex))
+        probe("powers of two", (2.0 ** (k % 5 - 2)) * (1 + 1j))
+        probe("real dense", np.real(dense_vec(n, 5)).astype(complex))
     # homogeneity far away from unit scale: a linear map has no absolute thresholds (values treated as zero below
     # 1e-8, clamps with machine eps, ...).  Compared relative to the scaled reference.
     for name, sc in (("1e-12*dense", 1e-12), ("1e+12*dense", 1e12)):
